@@ -173,15 +173,14 @@ class FlowReader:
                 dirvar = s.targets[0].id
         if dirvar is None:
             raise self.err("target of tempfile.mkdtemp() not found")
-        # no later re-assignment of the flag
+        # the delete flag only describes the directory if BOTH the flag and the directory variable are
+        # bound once, by the statement that makes the directory: no later store/delete of either
         for s in body[idx + 1:]:
             for n in ast.walk(s):
-                if isinstance(n, (ast.Assign, ast.AugAssign, ast.AnnAssign)):
-                    tg = n.targets if isinstance(n, ast.Assign) else [n.target]
-                    for t in tg:
-                        for m in ast.walk(t):
-                            if isinstance(m, ast.Name) and m.id == flag:
-                                raise self.err(f"{flag} re-assigned after the directory was made")
+                if isinstance(n, ast.Name) and n.id in (flag, dirvar) and isinstance(n.ctx, (ast.Store, ast.Del)):
+                    raise self.err(f"{n.id} is re-bound at line {n.lineno}, after the wheel directory was decided")
+                if isinstance(n, (ast.Global, ast.Nonlocal)) and (flag in n.names or dirvar in n.names):
+                    raise self.err("wheel directory variables declared global/nonlocal")
         # nothing before the directory is made may delete
         for s in body[:idx + 1]:
             self.no_deleters([s], allowed=None)
@@ -521,12 +520,49 @@ def read_scan_shape() -> Dict[str, Any]:
     return {"scan_handlers": handlers}
 
 
+def read_multi_shape() -> Dict[str, Any]:
+    """repos/multi.py MultiRepository.get_dist: the loop over the repositories has one try whose
+    except clauses decide which failures make it go on to the next repository."""
+    mod = T.parse("req_compile/repos/multi.py")
+    f = T.func(T.klass(mod, "MultiRepository"), "get_dist")
+    loops = [n for n in f.body if isinstance(n, ast.For)]
+    if len(loops) != 1:
+        raise TranslateError("MultiRepository.get_dist: expected one loop over the repositories")
+    tries = [n for n in loops[0].body if isinstance(n, ast.Try)]
+    if len(tries) != 1 or len(loops[0].body) != 1 or tries[0].finalbody or tries[0].orelse:
+        raise TranslateError("MultiRepository.get_dist: expected the loop body to be one try/except")
+    names: List[str] = []
+    for h in tries[0].handlers:
+        types = h.type.elts if isinstance(h.type, ast.Tuple) else [h.type]
+        for t in types:
+            if isinstance(t, ast.Name):
+                names.append(t.id)
+            elif isinstance(t, ast.Attribute):
+                names.append(t.attr)
+            else:
+                raise TranslateError("MultiRepository.get_dist: unsupported except clause")
+        if any(isinstance(m, (ast.Return, ast.Break, ast.Raise)) for m in ast.walk(h)):
+            raise TranslateError("MultiRepository.get_dist: except clause does more than remember the exception")
+    rets = [m for m in ast.walk(tries[0]) if isinstance(m, ast.Return)]
+    if len(rets) != 1:
+        raise TranslateError("MultiRepository.get_dist: expected one return inside the try")
+    last = f.body[-1]
+    if not isinstance(last, ast.Raise):
+        raise TranslateError("MultiRepository.get_dist: does not end with a raise")
+    # subclasses must not override get_dist with other handlers
+    for cls in [n for n in mod.body if isinstance(n, ast.ClassDef) and n.name != "MultiRepository"]:
+        if any(isinstance(m, ast.FunctionDef) and m.name == "get_dist" for m in cls.body):
+            raise TranslateError(f"{cls.name} overrides get_dist: not modelled")
+    return {"handlers": names}
+
+
 def gen_c15_consts() -> str:
     cli = FlowReader("req_compile/cmdline.py", "compile_main").read()
     bzl = FlowReader("private/compiler.py", "compile_requirements").read()
     pg = read_page_retry()
     dl = read_download_shape()
     sc = read_scan_shape()
+    mu = read_multi_shape()
     out = "(* GENERATED by harness/tr_c15.py from /repo on every run -- do not edit *)\n"
     out += "From Coq Require Import List String NArith Bool.\nFrom RC Require Import model.CliTypesC15.\nImport ListNotations.\nOpen Scope string_scope.\n\n"
     for nm, fl in (("cli", cli), ("bzl", bzl)):
@@ -546,6 +582,7 @@ def gen_c15_consts() -> str:
     out += f"Definition rc_removal_guard_ok : bool := {_coq_bool(dl['rc_guard_ok'])}.\n"
     out += f"Definition rc_reraises : bool := {_coq_bool(dl['rc_reraises'])}.\n"
     out += "Definition scan_handlers : list ecls := [" + "; ".join(sc["scan_handlers"]) + "].\n"
+    out += "Definition multi_get_dist_handlers : list string := [" + "; ".join(T.coq_str(n) for n in mu["handlers"]) + "].\n"
     return out
 
 
